@@ -3,7 +3,7 @@
 From Coq Require Import List NArith ZArith.
 From BLB Require Import Lib.LTS Raft.Core Raft.Wire Raft.Legit Raft.NodeProofs Raft.NodeElect Raft.NodeMono Raft.Election
      Raft.LogMatchLists Raft.LogMatch Raft.LogMatchNodeS Raft.CompletenessCommit Raft.SnapContig Raft.SnapContigSys Raft.SnapSystem
-     C07.A_Witness C07.A_Repaired C07.A_Proofs C07.A_Wedge C07.A_NoFatal C07.A_Restart C07.A_Vote C07.A_RestartExample.
+     C07.A_Witness C07.A_Repaired C07.A_Proofs C07.A_Wedge C07.A_NoFatal C07.A_Restart C07.A_Vote C07.A_RestartExample C07.A_FsmMember.
 Import ListNotations.
 Open Scope N_scope.
 
@@ -201,3 +201,21 @@ Theorem restart_never_fatal_nonvacuous :
   exists s'', handle_msg (settle xs') xa = Ret s'' /\ length (p_log (n_p s'')) = 1%nat /\ last_index (n_p s'') = 6.
 Proof. exact restart_nonvacuous. Qed.
 Print Assumptions restart_never_fatal_nonvacuous.
+
+(* [FULL] part A, snapshot_metadata_carries_membership, over any number of lives. Model of the three places where the fsm loop touches lastAppliedMembership (an applied configuration entry replaces it, restoreFromSnapshot takes it from the snapshot metadata, a new snapshot's metadata carries it). For every committed sequence L with consecutive indices from 1 and every sequence of lives (restore from the current snapshot if any, apply the next k committed entries for any k, take a snapshot): the metadata of the resulting snapshot carries exactly the membership of the last configuration entry at or below its index. The seeded variant whose restore does not record the membership violates this on a two-life run (A_FsmMember.ex_bad) *)
+Theorem snapshot_metadata_carries_membership :
+  forall L, wf_from 1 L -> forall m, lives L m ->
+    match m with
+    | None => True
+    | Some m1 => (N.to_nat (sn_index m1) <= length L)%nat /\ sn_conf m1 = conf_upto L (N.to_nat (sn_index m1))
+    end.
+Proof. exact snapshot_membership_lemma. Qed.
+Print Assumptions snapshot_metadata_carries_membership.
+
+(* [FULL] part A, and what a restart reads from it: when the log behind the snapshot is gone, newCore's latest configuration is the membership in the snapshot's metadata; non-vacuity of the lives theorem (two lives, snapshot at 2 then at 4, membership still 1 2 3) *)
+Theorem restart_reads_group_from_snapshot :
+  (forall p m, p_log p = [] -> p_snap p = Some m -> init_latest_conf p = sn_conf m) /\
+  (let m1 := life ex_L None 2 in let m2 := life ex_L (Some m1) 2 in
+   lives ex_L (Some m2) /\ sn_index m2 = 4 /\ exists c, sn_conf m2 = Some c /\ mb_members c = [1; 2; 3]).
+Proof. split; [exact init_latest_conf_from_snapshot | exact ex_two_lives]. Qed.
+Print Assumptions restart_reads_group_from_snapshot.
